@@ -12,6 +12,8 @@ import FastorModel.Driver.RandomViews
 import FastorModel.Driver.Reduce
 import FastorModel.Driver.Horizontal
 import FastorModel.Driver.Layout
+import FastorModel.Driver.QR
+import FastorModel.Driver.QRF
 /-
   `fmodel`: line-protocol driver.  Reads one case per line on stdin, prints the model's observables
   for it.  The harness prints the implementation's observables for the same case in the same format.
@@ -50,6 +52,8 @@ def step (line : String) : String :=
   | "hstep" :: rest => runHstep (parseKV rest)
   | "layout" :: rest => runLayout (parseKV rest)
   | "mapops" :: rest => runMapops (parseKV rest)
+  | "qr" :: rest => runQR (parseKV rest)
+  | "qrf" :: rest => runQRF (parseKV rest)
   | _ => "bad-op"
 
 partial def loop (h : IO.FS.Stream) (out : IO.FS.Stream) : IO Unit := do
